@@ -338,6 +338,15 @@ def replay_protocol(hists):
                                 fit(obj, step["d"])
                                 fitted = step["d"]
                                 got = "ok"
+                            elif step["op"] == "clone":
+                                from sklearn.base import clone
+                                obj = clone(obj)
+                                fitted = None
+                                got = "ok"
+                            elif step["op"] == "reload":
+                                import pickle
+                                obj = pickle.loads(pickle.dumps(obj))
+                                got = "ok"
                             else:
                                 o = np.asarray(call(obj, step["d"]))
                                 got = "ok"
